@@ -28,7 +28,7 @@ func (c08) Describe() engine.Info {
 	return engine.Info{
 		Rule: "scenario = cartridge configuration (ROM-only, MBC1 32K-2M, MBC2 32K-256K, MBC3 32K-2M, MBC5 32K-8M, x RAM sizes; enumerated by index) + history of 20..200 bus operations: control writes to 0000-7FFF at region edges, with A8 set/clear, values 0, 0A, small and random; occasional RAM writes; ROM reads. After every operation 9 ROM addresses (both windows, incl. the page signature bytes) are read back. " +
 			"Oracle: reference controller model (MBC1 5+2 bit bank, mode-dependent low window, 0->1 remap; MBC2 4-bit bank via A8; MBC3 7-bit bank with 0->1; MBC5 9-bit bank, 0 allowed; all modulo the page count); ROM bytes never change. Signature = (controller, ROM size, RAM size, control region written, page in low window, RAM enabled)." +
-			" DMA transfers from cartridge space run while the history goes on; every declared RAM size code; values with a single bit set or clear. Environment: CPU parked looping, halted or stopped. Configurations use every header type byte of a controller family (battery, rumble, timer variants), MBC3 images up to 8 MiB, one image in four repeats logo and header in every page, and one history in four looks at the windows only every 3rd..12th operation.",
+			" DMA transfers from cartridge space run while the history goes on; every declared RAM size code; values with a single bit set or clear. Environment: CPU parked looping, halted or stopped. Configurations use every header type byte of a controller family (battery, rumble, timer variants), MBC3 images up to 8 MiB, one image in four repeats logo and header in every page, and one history in four looks at the windows only every 3rd..12th operation. One image in five carries distinct pages with equal CRC-32 and equal byte sums (differing in the signature bytes the checks read).",
 		Assumptions:    []string{"MBC1 images above 2 MiB and MBC2 above 256 KiB are not real configurations and are not judged here (C11 covers their not crashing)", "exhaustive enumeration of single writes is a directed workload (class single), the deciding step is the seeded search"},
 		RequiredProbes: []string{"page0_in_high_window", "dma_from_cartridge_space_in_flight"},
 		RealComponents: realComponents, StubComponents: stubComponents,
